@@ -29,6 +29,8 @@ use std::{collections::BTreeMap, sync::Arc};
 /// ```                      V W X
 
 pub static ASCII_PROPERTIES: Lazy<BTreeMap<char, Property>> = Lazy::new(|| {
+    #[cfg(feature = "verif-trace")]
+    let _verif_guard = crate::verif::LazyGuard::new("ASCII_PROPERTIES");
     let cell = Cell::new(0, 0);
 
     let a = CellGrid::a();
